@@ -3,6 +3,8 @@
 From Coq Require Import List Arith Bool.
 From M Require Import Base Flat FlatSpec.
 From P Require Import FlatP FlatOrder FlatCrash.
+From M Require Import Hsm.
+From P Require CrashGen HsmCrash.
 Import ListNotations.
 
 (* single_raise ev k e : the callback invoked at position k raises e (an Exception or a
@@ -65,3 +67,36 @@ Theorem C04_crash_ignored_invalid :
        trigger_event mc ev c ts p cur = (firstn (k - p + 1) fin, cur, inr false)).
 Proof. exact crash_invalid_ignored. Qed.
 Print Assumptions C04_crash_ignored_invalid.
+
+(* ---------- hierarchical machines (nesting.py) ---------- *)
+(* For every hierarchical machine (any state tree, parallel regions, global and local
+   transitions), every configuration, event and every position k of the trace b that the
+   dispatch of the event produces (b, st', r0: what the non-raising twin of the environment
+   does inside the try block — r0 may itself be MachineError/AttributeError): if the callback
+   at position k raises e, nothing after it runs except the on_exception handlers (iff
+   registered, seeing e) and every finalize callback once; the exception reaches the caller
+   iff there is no handler; the configuration is the one the failing callback saw. *)
+Theorem C04_hsm_crash_point :
+  forall (hm : hmachine) (c : ctx) (ev : env) (k : nat) (e : exn) (ev_id : event) (p : nat) (f : forest) b st' r0,
+    CrashGen.single_raise ev k e ->
+    HsmCrash.hbody hm c (CrashGen.strip ev) ev_id p f = (b, st', r0) ->
+    p <= k < p + length b ->
+    let s_at := it_state (nth (k - p) b HsmCrash.dummy_h) in
+    let h := CrashGen.gitems ev c SOnException (Some e) s_at (hm_on_exception hm) (S k) in
+    let fin := CrashGen.gitems ev c SFinalize (Some e) s_at (hm_finalize hm) (S k + length h) in
+    Hsm.trigger_event hm ev c ev_id p f =
+      (firstn (k - p + 1) b ++ h ++ fin, s_at,
+       match hm_on_exception hm with [] => inl e | _ => inr false end).
+Proof. exact HsmCrash.hsm_crash. Qed.
+Print Assumptions C04_hsm_crash_point.
+
+(* a raising finalize callback never replaces the outcome *)
+Theorem C04_hsm_crash_finalize :
+  forall (hm : hmachine) (c : ctx) (ev : env) (k : nat) (e : exn) (ev_id : event) (p : nat) (f : forest) b st' res,
+    CrashGen.single_raise ev k e ->
+    HsmCrash.hbody hm c (CrashGen.strip ev) ev_id p f = (b, st', inr res) ->
+    let fin := CrashGen.gitems ev c SFinalize None st' (hm_finalize hm) (p + length b) in
+    p + length b <= k < p + length b + length fin ->
+    Hsm.trigger_event hm ev c ev_id p f = (b ++ firstn (k - (p + length b) + 1) fin, st', inr res).
+Proof. exact HsmCrash.hsm_crash_finalize. Qed.
+Print Assumptions C04_hsm_crash_finalize.
